@@ -2366,6 +2366,12 @@ def BHJM_cylinder_segment(
     r1 = abs(r1)
     r2 = abs(r2)
     h = abs(h)
+
+    # work in units of the outer radius: the field of a homogeneously polarized body does
+    # not depend on the length unit, and the tolerances below then act as relative ones
+    unit = np.where(r2 > 0, r2, 1.0)
+    observers = observers / unit[:, np.newaxis]
+    r1, r2, h = r1 / unit, r2 / unit, h / unit
     z1, z2 = -h / 2, h / 2
 
     # transform dim deg->rad
